@@ -3621,7 +3621,20 @@ class MaybeAlignPartitions(Expr):
             or len(self.divisions) == 2
             and max(map(lambda x: len(x.divisions), dfs)) == 2
         ):
-            return self._expr_cls(*self.operands)
+            operands = self.operands
+            if len(dfs) > 1 and any(df.divisions != self.divisions for df in dfs):
+                # Single partitions are aligned by pandas within the one task,
+                # they only have to agree on the (possibly unknown) divisions
+                names = {df._name for df in dfs}
+                operands = [
+                    (
+                        SetDivisions(op, self.divisions)
+                        if isinstance(op, Expr) and op._name in names
+                        else op
+                    )
+                    for op in operands
+                ]
+            return self._expr_cls(*operands)
         elif self.divisions[0] is None:
             # We have to shuffle
             npartitions = max(df.npartitions for df in dfs)
